@@ -215,6 +215,13 @@ Expect(p, t) ==
          [exact |-> B2V(t # <<>> /\ AllOf(t, IsWordC) /\ LenOK(Len(t), p.nmin, p.nmax)), mspec |-> FALSE, matches |-> <<>>]
     [] p.kind \in {"WordContains", "WordStartsWith", "WordEndsWith"} /\ p.ext ->
          [exact |-> B2V(AffixExact(p, t)), mspec |-> FALSE, matches |-> <<>>]
+    \* Text / Whitespace / NonWhitespace (outside the listed properties; part of the specification's growth)
+    [] p.kind \in {"Text", "Whitespace", "NonWhitespace"} ->
+         LET isws(c) == c \in {9, 10, 11, 12, 13, 32}
+             ok == CASE p.kind = "Text" -> TRUE
+                     [] p.kind = "Whitespace" -> AllOf(t, isws)
+                     [] p.kind = "NonWhitespace" -> \A i \in 1..Len(t) : ~isws(t[i])
+         IN [exact |-> B2V(ok /\ (p.ext \/ t # <<>>)), mspec |-> FALSE, matches |-> <<>>]      \* ext stands for is_optional here
     [] p.kind = "IPv4" -> [exact |-> B2V(IsIPv4(t)), mspec |-> FALSE, matches |-> <<>>]
     [] p.kind = "IPv6" -> [exact |-> B2V(IsIPv6(t)), mspec |-> FALSE, matches |-> <<>>]
     [] p.kind = "IPctx" ->      \* an address embedded between a left and a right context (is_extensible = FALSE)
